@@ -200,9 +200,8 @@ def child_main(home, scenario, wfd, rfd, crash_after, torn):
                 self._f.flush()
                 send({"step": "torn " + label})
                 os._exit(77)
-            r = self._f.write(text)
-            self._f.flush()
-            after(label)
+            r = self._f.write(text)      # NOT flushed: like the code under test, the text reaches the disk when the
+            after(label)                 # file is closed (a kill before that loses it — os._exit does not flush)
             return r
 
         def close(self):
